@@ -61,22 +61,61 @@ class fixable_prop:
 
 
 # ------------------------------------------------------------------ specification (from the property text)
+# The three predicates below are declared `uninterpreted` with a defining axiom whose body IS the Python body
+# (the c30 `first_match` idiom).  Natively they are ordinary functions.  Symbolically each application is one atom
+# of (line, code, directive list), so that "the same violation" reached through two lists is recognised by
+# congruence instead of by re-proving a four-quantifier formula; the definition is unfolded by the axiom.
+# They read only the immutable fields line_no / rules / action of directives (no function here writes them).
 def _names_axiom(rules, code, result):
     return result == (rules is None or code in rules)
 
 
 @spec(uninterpreted=True, axiom=_names_axiom)
 def names(rules: TOpt(TList(Code)), code: Code) -> BOOL:
-    """the rule list of a directive names the code, or names no rule (None).  Symbolically one atom per
-    (rules, code) pair, defined by the axiom above (its body is this very expression)."""
+    """a directive's rule list names the rule `code`, or names no rule (None = bare `noqa` / `all`)"""
     return rules is None or code in rules
 
 
 @spec
-def AX():
-    """proof plumbing, always True: the first conjunct of every clause below, so that the defining axiom of
-    `names` is available outside every quantifier and short-circuit guard"""
-    return names(None, "")
+def later(ds, k, j):
+    """directive j is more recent than directive k: on a later line, or later in file order on the same line"""
+    return ds[k].line_no < ds[j].line_no or (ds[k].line_no == ds[j].line_no and k < j)
+
+
+def _plain_hit_axiom(line, code, ds, n, result):
+    return result == any(names(ds[i].rules, code) and ds[i].line_no == line and ds[i].action is None for i in range(0, n))
+
+
+@spec(uninterpreted=True, axiom=_plain_hit_axiom)
+def plain_hit(line: INT, code: Code, ds: TList(NoQaDirective), n: INT) -> BOOL:
+    """among the first n directives: a plain noqa comment on that very source line that names the rule or
+    names no rule"""
+    return any(names(ds[i].rules, code) and ds[i].line_no == line and ds[i].action is None for i in range(0, n))
+
+
+def _range_off_axiom(line, code, ds, result):
+    return result == any(names(ds[k].rules, code) and ds[k].action == "disable" and ds[k].line_no <= line
+                         and all(not (names(ds[j].rules, code) and ds[j].action is not None and ds[j].line_no <= line
+                                      and later(ds, k, j)) for j in range(len(ds)))
+                         for k in range(len(ds)))
+
+
+@spec(uninterpreted=True, axiom=_range_off_axiom)
+def range_off(line: INT, code: Code, ds: TList(NoQaDirective)) -> BOOL:
+    """the most recent disable/enable comment at or before the line that covers the rule is a disable:
+    some disable directive k at or before the line covers the rule, and no enable/disable directive at or
+    before the line that covers the rule is more recent than k"""
+    return any(names(ds[k].rules, code) and ds[k].action == "disable" and ds[k].line_no <= line
+               and all(not (names(ds[j].rules, code) and ds[j].action is not None and ds[j].line_no <= line
+                            and later(ds, k, j)) for j in range(len(ds)))
+               for k in range(len(ds)))
+
+
+@spec
+def AX(ds):
+    """proof plumbing, always True: bound first in every clause below so that the defining axioms above are
+    available outside every quantifier and short-circuit guard"""
+    return names(None, "") and not plain_hit(0, "", ds, 0) and (range_off(0, "", ds) or True)
 
 
 @spec
@@ -87,33 +126,20 @@ def covers(d, v):
 
 @spec
 def matched(d, v):
-    """a (plain) noqa comment d on v's own source line names its rule or names no rule"""
+    """a noqa comment d on v's own source line names its rule or names no rule"""
     return covers(d, v) and d.line_no == v.line_no
 
 
 @spec
 def hidden_plain(v, ds):
-    return any(matched(ds[i], v) and ds[i].action is None for i in range(len(ds)))
-
-
-@spec
-def range_hit(d, v):
-    """d is a disable/enable comment at or before v's line that covers v's rule"""
-    return covers(d, v) and d.action is not None and d.line_no <= v.line_no
-
-
-@spec
-def later(ds, k, j):
-    """directive j is more recent than directive k: on a later line, or later in file order on the same line"""
-    return ds[k].line_no < ds[j].line_no or (ds[k].line_no == ds[j].line_no and k < j)
+    """a plain noqa comment on v's own source line names its rule or names no rule"""
+    return plain_hit(v.line_no, v.rule_code(), ds, len(ds))
 
 
 @spec
 def hidden_range(v, ds):
-    """the most recent disable/enable comment at or before v's line that covers its rule is a disable"""
-    return any(range_hit(ds[k], v) and ds[k].action == "disable"
-               and all(not (range_hit(ds[j], v) and later(ds, k, j)) for j in range(len(ds)))
-               for k in range(len(ds)))
+    """the most recent noqa disable/enable comment at or before v's line that covers its rule is a disable"""
+    return range_off(v.line_no, v.rule_code(), ds)
 
 
 @spec
@@ -136,10 +162,11 @@ def keeps_order(res, vs):
 
 
 # result == [v for v in vs if not P(v)] for pairwise distinct vs, spelled with quantifiers, is the conjunction of
-#   (sub)   every result element is an input with not P          (nothing invented, nothing hidden kept)
+#   (sub)   every result element is one of the inputs            (nothing invented)
+#   (clean) no result element satisfies P                        (nothing hidden is kept)
 #   (all)   every input with not P occurs in the result           (nothing else hidden)
 #   (ord)   keeps_order(result, vs)   and   (dis) distinct(result)
-# The four clauses are written out in every contract below (P differs; spec functions are first order).
+# The five clauses are written out in every contract below (P differs; spec functions are first order).
 
 
 # ------------------------------------------------------------------ contracts: the single-line path
@@ -160,22 +187,22 @@ class filter_violations_single_line:
         return c1 and c2 and c3
 
     def ensures(self, violations, result, old):
-        ax = AX()
-        sub = all(any(result[i] is violations[k] and not matched(self, violations[k]) for k in range(len(violations)))
-                  for i in range(len(result)))
+        ax = names(None, "")
+        sub = all(any(result[i] is violations[k] for k in range(len(violations))) for i in range(len(result)))
+        clean = all(not matched(self, result[i]) for i in range(len(result)))
         every = all(implies(not matched(self, violations[k]), any(result[i] is violations[k] for i in range(len(result))))
                     for k in range(len(violations)))
         order = keeps_order(result, violations)
         dis = distinct(result)
         # used' == used or (some violation matched)
         used = self.used == (old.self.used or any(matched(self, violations[k]) for k in range(len(violations))))
-        return ax and sub and every and order and dis and used
+        return ax and sub and clean and every and order and dis and used
 
 
 @spec
 def hp_upto(v, ds, n):
-    """some directive among the first n of ds is on v's line and covers it"""
-    return any(matched(ds[i], v) for i in range(0, n))
+    """hidden by one of the first n (plain) directives of ds"""
+    return plain_hit(v.line_no, v.rule_code(), ds, n)
 
 
 @spec
@@ -198,9 +225,9 @@ class ignore_masked_violations_single_line:
         return c1 and c2
 
     def ensures(violations, ignore_mask, result):
-        ax = AX()
-        sub = all(any(result[i] is violations[k] and not hidden_plain(violations[k], ignore_mask) for k in range(len(violations)))
-                  for i in range(len(result)))
+        ax = AX(ignore_mask)
+        sub = all(any(result[i] is violations[k] for k in range(len(violations))) for i in range(len(result)))
+        clean = all(not hidden_plain(result[i], ignore_mask) for i in range(len(result)))
         every = all(implies(not hidden_plain(violations[k], ignore_mask), any(result[i] is violations[k] for i in range(len(result))))
                     for k in range(len(violations)))
         order = keeps_order(result, violations)
@@ -208,18 +235,18 @@ class ignore_masked_violations_single_line:
         # `used`, post-state part: the first directive that matches a violation is marked; in particular the
         # ONLY covering directive of a hidden violation is marked
         used = first_matcher_used(ignore_mask, violations, len(ignore_mask))
-        return ax and sub and every and order and dis and used
+        return ax and sub and clean and every and order and dis and used
 
     def inv_1(violations, ignore_mask, old, _i):
-        ax = AX()
-        sub = all(any(violations[i] is old.violations[k] and not hp_upto(old.violations[k], ignore_mask, _i)
-                      for k in range(len(old.violations))) for i in range(len(violations)))
+        ax = AX(ignore_mask)
+        sub = all(any(violations[i] is old.violations[k] for k in range(len(old.violations))) for i in range(len(violations)))
+        clean = all(not hp_upto(violations[i], ignore_mask, _i) for i in range(len(violations)))
         every = all(implies(not hp_upto(old.violations[k], ignore_mask, _i), any(violations[i] is old.violations[k] for i in range(len(violations))))
                     for k in range(len(old.violations)))
         order = keeps_order(violations, old.violations)
         dis = distinct(violations)
         used = first_matcher_used(ignore_mask, old.violations, _i)
-        return ax and sub and every and order and dis and used
+        return ax and sub and clean and every and order and dis and used
 
 
 # ------------------------------------------------------------------ contracts: the range path
@@ -277,24 +304,26 @@ class ignore_masked_violations_line_range:
         return distinct(violations)
 
     def ensures(violations, ignore_mask, result):
-        ax = AX()
-        sub = all(any(result[i] is violations[k] and not hidden_range(violations[k], ignore_mask) for k in range(len(violations)))
-                  for i in range(len(result)))
+        ax = AX(ignore_mask)
+        sub = all(any(result[i] is violations[k] for k in range(len(violations))) for i in range(len(result)))
+        clean = all(not hidden_range(result[i], ignore_mask) for i in range(len(result)))
         every = all(implies(not hidden_range(violations[k], ignore_mask), any(result[i] is violations[k] for i in range(len(result))))
                     for k in range(len(violations)))
         order = keeps_order(result, violations)
         dis = distinct(result)
-        return ax and sub and every and order and dis
+        return ax and sub and clean and every and order and dis
 
     def inv_1(violations, ignore_mask, result, _i):
-        ax = AX()
-        sub = all(any(result[i] is violations[k] and not hidden_range(violations[k], ignore_mask) for k in range(0, _i))
-                  for i in range(len(result)))
+        ax = AX(ignore_mask)
+        sub = all(any(result[i] is violations[k] for k in range(0, _i)) for i in range(len(result)))
+        # (redundant given `sub` and distinct(violations); spares the solver a detour) nothing from the unprocessed tail
+        tail = all(result[i] is not violations[l] for i in range(len(result)) for l in range(_i, len(violations)))
+        clean = all(not hidden_range(result[i], ignore_mask) for i in range(len(result)))
         every = all(implies(not hidden_range(violations[k], ignore_mask), any(result[i] is violations[k] for i in range(len(result))))
                     for k in range(0, _i))
         order = keeps_order(result, violations)
         dis = distinct(result)
-        return ax and sub and every and order and dis
+        return ax and sub and tail and clean and every and order and dis
 
 
 # ------------------------------------------------------------------ contracts: the top level
@@ -309,14 +338,14 @@ class ignore_masked_violations:
 
     def ensures(self, violations, result):
         # result == [v for v in violations if not hidden(v, directives)]   (order kept)
-        ax = AX()
-        sub = all(any(result[i] is violations[k] and not hidden(violations[k], self._ignore_list) for k in range(len(violations)))
-                  for i in range(len(result)))
+        ax = AX(self._ignore_list)
+        sub = all(any(result[i] is violations[k] for k in range(len(violations))) for i in range(len(result)))
+        clean = all(not hidden(result[i], self._ignore_list) for i in range(len(result)))
         every = all(implies(not hidden(violations[k], self._ignore_list), any(result[i] is violations[k] for i in range(len(result))))
                     for k in range(len(violations)))
         order = keeps_order(result, violations)
         dis = distinct(result)
-        return ax and sub and every and order and dis
+        return ax and sub and clean and every and order and dis
 
 
 # ------------------------------------------------------------------ unused-noqa warnings
